@@ -138,7 +138,7 @@ func runC03Case(r *ev.Run, c c03Case) c03Dry {
 		}
 		exp[i] = e
 	}
-	committed := make([]int, len(msgs)) // accepted and acknowledged commits per message
+	committed := make([]int, len(msgs))     // accepted and acknowledged commits per message
 	queuedUnacked := make([]int, len(msgs)) // taken by the server, but the 2yz reply never left (connection lost)
 	for si, s := range sr.Sessions {
 		cmds, commits, _ := s.Snapshot()
